@@ -54,7 +54,7 @@ func H_C12_gated_same_broker() {
 	if nondetBool() {
 		now = 2000 // everything pending has expired
 	}
-	switch symLen(0, 4) {
+	switch symLen(0, 5) {
 	case 0:
 		b.Send(ctx, "t", &cPayload{id: "z", flush: nondetBool()})
 	case 1:
@@ -67,6 +67,10 @@ func H_C12_gated_same_broker() {
 		b.Reopen(ctx)
 	case 4:
 		w.FlushAll(ctx)
+	case 5:
+		// the filter stays registered but unused, then its id is registered again
+		b.RemovePipeline("t", "p")
+		b.RegisterNode("gate", &gFmt{})
 	}
 	verifAssert(verifNoLocksHeld(), "C12.gated.locks-released")
 	b.SetSuccessThreshold("t", 0)
